@@ -1,11 +1,35 @@
 (* Extraction of the fold models (C06): entry : json -> json for ocaml/common/driver.ml *)
 From Coq Require Import List ZArith String.
 Import ListNotations.
-Require Import Naga.Base.Json Naga.Fold.FoldModel Naga.Fold.FoldJson.
+Require Import Naga.Base.Json Naga.Fold.FoldModel Naga.Fold.FoldJson Naga.Fold.FoldFloat.
 Require Extraction.
 Require Import ExtrOcamlBasic.
-Definition null_float_ops : float_ops :=
-  {| f_bin_ast := fun _ _ _ => None; f_bin := fun _ _ _ => None; f_neg := fun _ => None; f_as := fun _ _ => None;
-     f_math := fun _ _ => None; f_conc := fun _ _ => None; f_ai_to_af := fun v => LAI v |}.
-Definition entry (j : json) : json := entry_with null_float_ops j.
+Open Scope string_scope.
+
+Definition lits_of_json (j : json) : option (list lit) :=
+  match j with
+  | JArr l => map_opt (fun x => match x with JArr [JStr "lit"; JStr k; JNum n] => lit_of_json k n | _ => None end) l
+  | _ => None
+  end.
+
+(* {"fn":"dot","xs":[lit..],"ys":[lit..]} -> tryFoldDot on literal vectors *)
+Definition entry (j : json) : json :=
+  match field_str "fn" j with
+  | Some fn =>
+    if String.eqb fn "dot" then
+      match match field "xs" j with Some x => lits_of_json x | None => None end,
+            match field "ys" j with Some y => lits_of_json y | None => None end with
+      | Some xs, Some ys =>
+        JObj [("r", jopt_lit (match xs with
+                              | x :: _ => if is_integer_literal x then fold_dot_int xs ys
+                                          else if is_float_literal x then fold_dot_float xs ys else None
+                              | [] => None
+                              end))]
+      | _, _ => JObj [("err", JStr "request")]
+      end
+    else if String.eqb fn "round_to_f16" then
+      match field_num "bits" j with Some b => JObj [("r", JNum (round_to_f16_bits b))] | None => JObj [("err", JStr "request")] end
+    else entry_with flocq_float_ops j
+  | None => JObj [("err", JStr "request")]
+  end.
 Extraction "model.ml" entry.
